@@ -79,7 +79,13 @@ ChildA == Len(hist) < MaxOps /\ Len(hs) < MaxHandles /\ \E h \in 1..Len(hs) :
             /\ \E i \in 1..Len(heap[hs[h]].sub) :
                  /\ heap' = heap /\ hs' = Append(hs, heap[hs[h]].sub[i]) /\ hist' = Append(hist, [op |-> "child", h |-> h, i |-> i, x |-> 0, s |-> ""])
                  /\ ok' = (ok /\ Tree(heap, heap[hs[h]].sub[i]) = Tree(heap, hs[h]).c[i])
-Next == (CloneA \/ DeepA \/ SubstA \/ SetChildA \/ ChildA) /\ UNCHANGED h0
+(* one disjunct per operation, so that TLC's coverage report counts each of them *)
+CloneN == CloneA /\ UNCHANGED h0
+DeepN == DeepA /\ UNCHANGED h0
+SubstN == SubstA /\ UNCHANGED h0
+SetChildN == SetChildA /\ UNCHANGED h0
+ChildN == ChildA /\ UNCHANGED h0
+Next == CloneN \/ DeepN \/ SubstN \/ SetChildN \/ ChildN
 Spec == Init /\ [][Next]_vars
 
 Laws == ok
